@@ -2,6 +2,7 @@ package main
 
 import (
 	"fmt"
+	"strings"
 
 	"github.com/semihalev/twig"
 )
@@ -94,4 +95,72 @@ func c01PV[T any](v *c01Acc[T], ptr bool) interface{} {
 		return v
 	}
 	return *v
+}
+
+// c01SharedHandles: a parsed template reachable through more than one owner (registered on a second engine with
+// RegisterTemplate, kept by the caller as a *Template, registered under a second name) keeps rendering the same
+// after the engine it came from registers another template under that name and parses further templates.
+func c01SharedHandles(e *Env) {
+	r := e.Rep
+	shapes := []struct{ src, want string }{
+		{"Hello {{ name }}!", "Hello Ada!"},
+		{"{% for i in [1, 2, 3] %}[{{ i }}{% if i > 1 %}+{{ name }}{% endif %}]{% endfor %}", "[1][2+Ada][3+Ada]"},
+		{"{% block b %}B {{ name|upper }}{% endblock %}|{% set q = name ~ '?' %}{{ q }}", "B ADA|Ada?"},
+		{"{% macro m(x) %}<{{ x }}>{% endmacro %}{{ m(name) }}{{ _self.m(1) }}", "<Ada><1>"},
+		{"a {{- name -}} b {# c #}{% verbatim %}{{ raw }}{% endverbatim %}", "aAdab {{raw}}"},
+	}
+	ctx := func() map[string]interface{} { return map[string]interface{}{"name": "Ada"} }
+	for si, sh := range shapes {
+		res := guarded(func() (string, error) {
+			site := twig.New()
+			if err := site.RegisterString("greeting", sh.src); err != nil {
+				return "", err
+			}
+			handle, err := site.Load("greeting")
+			if err != nil {
+				return "", err
+			}
+			mail := twig.New()
+			mail.RegisterTemplate("greeting", handle)
+			site.RegisterTemplate("alias", handle)
+			check := func(when string) error {
+				for who, f := range map[string]func() (string, error){
+					"second engine": func() (string, error) { return mail.Render("greeting", ctx()) },
+					"kept handle":   func() (string, error) { return handle.Render(ctx()) },
+					"alias":         func() (string, error) { return site.Render("alias", ctx()) },
+				} {
+					if out, err := f(); err != nil || out != sh.want {
+						return fmt.Errorf("HANDLE-CHANGED %s, %s: %q %v", when, who, out, err)
+					}
+				}
+				return nil
+			}
+			if err := check("at once"); err != nil {
+				return "", err
+			}
+			for k := 0; k < 4; k++ {
+				if err := site.RegisterString("greeting", fmt.Sprintf("Hi {{ name }} %d {%% for j in [7, 8] %%}({{ j }}){%% endfor %%}{%% block b %%}x{%% endblock %%}", k)); err != nil {
+					return "", err
+				}
+				site.RegisterString(fmt.Sprintf("footer%d", k), "-- sent by the site {% if name %}{{ name }}{% endif %}")
+				if out, err := site.Render("greeting", ctx()); err != nil || !strings.HasPrefix(out, "Hi Ada") {
+					return "", fmt.Errorf("site renders its new greeting as %q %v", out, err)
+				}
+				twig.New().RegisterString("other", "{% macro zz(a) %}{{ a }}{% endmacro %}{{ zz(1) }}{% for q in [1] %}{{ q }}{% endfor %}")
+				if err := check(fmt.Sprintf("after re-registration %d", k+1)); err != nil {
+					return "", err
+				}
+			}
+			return "ok", nil
+		})
+		r.Seen(fmt.Sprintf("shared-handle:%d", si), true)
+		r.Hit("shared-template-handles")
+		if res.Err != nil || res.Class != "" {
+			if r.Violate(Violation{Key: "shared-template-changed", What: fmt.Sprintf("template %q owned by two engines and a caller: %v %s", sh.src, res.Err, res.Class),
+				Broken: "theorem C01_history_independence / C01_never_stale_source (a parsed template is never recycled while reachable; implementation-only oracle)",
+				Replay: map[string]any{"kind": "shared-handle", "src": sh.src, "want": sh.want, "err": fmt.Sprint(res.Err), "class": res.Class, "panic": res.Panic}}) {
+				return
+			}
+		}
+	}
 }
